@@ -31,6 +31,11 @@ type Env struct {
 	pkg    *types.Package
 	qctr   *int
 	fn     *ssa.Function // the function whose names the contract text uses (rename tolerance, see locals.go)
+	// callee: set when a callee's contract is evaluated at a call site. The callee's unit-local ghosts are then
+	// arbitrary per call (never the caller's ghost of the same name) and fresh(x) only tells the caller that x is not
+	// one of its own allocations
+	callee       bool
+	calleeGhosts map[string]bool
 }
 
 func (e *Env) withState(st *State) *Env {
@@ -194,6 +199,11 @@ func (e *Env) tr(x Expr) TV {
 	case *EIdent:
 		if bv, ok := e.bound[x.Name]; ok {
 			return TV{T: bv.T, Ty: bv.Ty}
+		}
+		if e.calleeGhosts[x.Name] && e.lookup != nil {
+			if tv, ok := e.lookup(e, x.Name); ok {
+				return tv
+			}
 		}
 		if g, ok := e.st.ghost[x.Name]; ok {
 			return TV{T: g, Ty: e.u.ghostTy[x.Name]}
@@ -643,6 +653,21 @@ func (e *Env) trCall(x *ECall) TV {
 			return TV{T: App("<", SBool, App("s_arr", SInt, a.T), e.u.allocBase), Ty: boolT}
 		}
 		return TV{T: App("<", SBool, a.T, e.u.allocBase), Ty: boolT}
+	case "fresh": // fresh(x): x was allocated by this call. In the unit's own post-condition: x is one of the unit's allocations;
+		// at a call site of the unit: x is not one of the caller's allocations (what foreign(x) says)
+		need(1)
+		a := argOf(0)
+		if e.u.allocBase.S == "" {
+			return TV{T: True, Ty: boolT}
+		}
+		at := a.T
+		if a.T.Sort == SSlice {
+			at = App("s_arr", SInt, a.T)
+		}
+		if e.callee {
+			return TV{T: App("<", SBool, at, e.u.allocBase), Ty: boolT}
+		}
+		return TV{T: And(App(">", SBool, at, e.u.allocBase), App("<=", SBool, at, e.u.topOf(e.st))), Ty: boolT}
 	case "ifacePtr": // the reference (pointer, map) held by an interface value
 		need(1)
 		return TV{T: App("iint", SInt, argOf(0).T), Ty: intT}
